@@ -29,8 +29,9 @@ def _nanx(A, x, v):
 class T:
     """contract of one term class"""
 
-    def __init__(s, cls, params, valid, oracle, monotone=None, height=True, doc=""):
+    def __init__(s, cls, params, valid, oracle, monotone=None, height=True, doc="", invertible=None):
         s.cls, s.params, s._valid, s._oracle, s.monotone, s.height, s.doc = cls, params, valid, oracle, monotone, height, doc
+        s.invertible = invertible          # extra premise of the Tsukamoto clauses: a vertical edge (a step) takes no value strictly between 0 and the height
 
     def fields(s):
         return s.params + (["height"] if s.height else [])
@@ -205,9 +206,9 @@ TERMS = {t.cls: t for t in [
     T("GaussianProduct", ["mean_a", "standard_deviation_a", "mean_b", "standard_deviation_b"],
       lambda A, p: A.and_(_fin(A, p, "mean_a", "standard_deviation_a", "mean_b", "standard_deviation_b"),
                           _ne(A, p["standard_deviation_a"], A.c(0.0)), _ne(A, p["standard_deviation_b"], A.c(0.0))), gaussian_product),
-    T("PiShape", ["bottom_left", "top_left", "top_right", "bottom_right"],
-      lambda A, p: A.and_(_fin(A, p, "bottom_left", "top_left", "top_right", "bottom_right"), A.lt(p["bottom_left"], p["top_left"]),
-                          A.lt(p["top_right"], p["bottom_right"])), pishape),
+    T("PiShape", ["bottom_left", "top_left", "top_right", "bottom_right"],      # (a flank may be a vertical edge: the case analysis of the S- and Z-shape decides on x first)
+      lambda A, p: A.and_(_fin(A, p, "bottom_left", "top_left", "top_right", "bottom_right"), A.le(p["bottom_left"], p["top_left"]),
+                          A.le(p["top_right"], p["bottom_right"])), pishape),
     T("Ramp", ["start", "end"], lambda A, p: A.and_(_fin(A, p, "start", "end"), _ne(A, p["start"], p["end"])), ramp,
       monotone=lambda A, p: (A.lt(p["start"], p["end"]), A.gt(p["start"], p["end"]))),
     T("Rectangle", ["start", "end"], lambda A, p: _nn(A, p, "start", "end"), rectangle),
@@ -219,15 +220,15 @@ TERMS = {t.cls: t for t in [
     T("SigmoidProduct", ["left", "rising", "falling", "right"],
       lambda A, p: A.and_(_fin(A, p, "left", "rising", "falling", "right"), _ne(A, p["rising"], A.c(0.0)), _ne(A, p["falling"], A.c(0.0))), sigmoid_product),
     T("Spike", ["center", "width"], lambda A, p: A.and_(_fin(A, p, "center", "width"), A.gt(p["width"], A.c(0.0))), spike),
-    T("SShape", ["start", "end"], lambda A, p: A.and_(_fin(A, p, "start", "end"), A.lt(p["start"], p["end"])), sshape,
-      monotone=lambda A, p: (A.and_(), A.or_())),
+    T("SShape", ["start", "end"], lambda A, p: A.and_(_fin(A, p, "start", "end"), A.le(p["start"], p["end"])), sshape,
+      monotone=lambda A, p: (A.and_(), A.or_()), invertible=lambda A, p: A.lt(p["start"], p["end"])),
     T("Trapezoid", ["bottom_left", "top_left", "top_right", "bottom_right"],
       lambda A, p: A.and_(_nn(A, p, "bottom_left", "bottom_right"), _fin(A, p, "top_left", "top_right"), A.le(p["bottom_left"], p["top_left"]),
                           A.le(p["top_left"], p["top_right"]), A.le(p["top_right"], p["bottom_right"])), trapezoid),
     T("Triangle", ["left", "top", "right"],
       lambda A, p: A.and_(_nn(A, p, "left", "right"), _fin(A, p, "top"), A.le(p["left"], p["top"]), A.le(p["top"], p["right"])), triangle),
-    T("ZShape", ["start", "end"], lambda A, p: A.and_(_fin(A, p, "start", "end"), A.lt(p["start"], p["end"])), zshape,
-      monotone=lambda A, p: (A.or_(), A.and_())),
+    T("ZShape", ["start", "end"], lambda A, p: A.and_(_fin(A, p, "start", "end"), A.le(p["start"], p["end"])), zshape,
+      monotone=lambda A, p: (A.or_(), A.and_()), invertible=lambda A, p: A.lt(p["start"], p["end"])),
 ]}
 MONOTONIC = [c for c, t in TERMS.items() if t.monotone]
 # every class that must exist as a shape term (Discrete is handled by its own obligations; Linear/Function are not shape terms)
@@ -427,6 +428,8 @@ def replay_sampled(fl, FA, cls=None, what="membership", seed=0, budget=40, vals=
             kw = _sample_params(FA, t, rng)
             if kw is None:
                 break
+            if what == "tsukamoto" and t.invertible is not None and not bool(t.invertible(FA, {k: np.float64(v) for k, v in kw.items()})):
+                continue
             fin = [v for k, v in kw.items() if k != "height" and np.isfinite(v)]
             if what == "membership":
                 pts = set(fin) | {np.nextafter(v, np.inf) for v in fin} | {np.nextafter(v, -np.inf) for v in fin}
